@@ -236,15 +236,23 @@ def normalize(ctx):
         for want_transform in (False, True):
             rec = Rec()
             tests, solved, compared = [], [], []
-            battrs = {'avect': V[0], 'bvect': V[1], 'cvect': V[2], 'origin': o, 'vects': V}
-            battrs.update(pars)
-            box = SymObj(None, battrs, 'box')
+            class BoxM(PyStub):
+                # every read hands out a fresh copy, as Box's properties do
+                def __init__(self):
+                    self._v, self._o = V.copy(), o.copy()
+                vects = property(lambda self: self._v.copy())
+                origin = property(lambda self: self._o.copy())
+                avect = property(lambda self: self._v[0].copy())
+                bvect = property(lambda self: self._v[1].copy())
+                cvect = property(lambda self: self._v[2].copy())
+            for _k, _val in pars.items():
+                setattr(BoxM, _k, _val)
+            box = BoxM()
 
             def setv(M, origin=None, _box=box):
-                M = np.asarray(M, dtype=object)
-                _box.attrs.update({'vects': M, 'avect': M[0], 'bvect': M[1], 'cvect': M[2]})
+                _box._v = np.array(M, dtype=object)
                 if origin is not None:
-                    _box.attrs['origin'] = np.asarray(origin, dtype=object)
+                    _box._o = np.array(origin, dtype=object)
 
             def bset(**kw):
                 rec.calls.append(('box_set', dict(kw)))
